@@ -1380,6 +1380,38 @@ Proof.
   rewrite <- (S4 eq_refl). apply (write_from_spec c OK H false rs []). exact G.
 Qed.
 
+(* the same for records whose floats are all finite (the property's json_supported) *)
+Definition json_ok (r : record) : Prop := record_ok c r = true /\ record_finite r = true.
+
+Lemma ok_supported rs : Forall json_ok rs -> Forall supported rs.
+Proof.
+  intros G. apply Forall_forall. intros r Hr. rewrite Forall_forall in G. destruct (G r Hr) as [A B].
+  exact (finite_supported r A B).
+Qed.
+
+Theorem top_value dflt t v : has_type c dflt t v = true -> val_float_canonical v = true ->
+  pack_value c (mem t (bool_cast_types c)) v = Some (json_of_value (mem t (bool_cast_types c)) v)
+  /\ exists j, pack_value c (mem t (bool_cast_types c)) v = Some j /\ unpack_value c dflt t j = Some v.
+Proof. intros HT C. split; [exact (top_value_mapping dflt t v HT C)|exact (top_value_roundtrip dflt t v HT C)]. Qed.
+
+Theorem top_roundtrip_finite rs : Forall json_ok rs ->
+  exists docs, write_json c H true rs = Some docs /\ read_json c H docs = Some rs.
+Proof. intros G. exact (top_roundtrip rs (ok_supported rs G)). Qed.
+
+Theorem top_documents_finite on rs : Forall json_ok rs ->
+  exists docs, write_json c H on rs = Some docs
+  /\ Forall (fun d => exists kv, d = JObj kv) docs
+  /\ map doc_keys (filter (fun d => negb (is_descriptor_doc c d)) docs)
+       = map (fun r => Some (slot_names c r ++ (if on then [type_key c; desc_key c] else []))) rs
+  /\ Forall (fun d => is_descriptor_doc c d = true -> doc_keys d = Some [type_key c; data_key c]) docs
+  /\ (on = false -> List.length docs = List.length rs /\ Forall (fun d => is_descriptor_doc c d = false) docs).
+Proof. intros G. exact (top_documents on rs (ok_supported rs G)). Qed.
+
+Theorem top_no_descriptors_finite rs : Forall json_ok rs ->
+  exists docs ps, write_json c H false rs = Some docs /\ read_json c H docs = Some ps
+  /\ Forall2 (fun doc p => d_name (r_desc p) = fallback_name c /\ scalar_view_record p = scalar_view_doc c doc) docs ps.
+Proof. intros G. exact (top_no_descriptors rs (ok_supported rs G)). Qed.
+
 End Top.
 
 (* a fallback value stands for exactly the JSON scalar it was read from *)
